@@ -23,7 +23,9 @@ def pick_weighted(rng, pairs):
 
 
 SPECIAL_COMPS = ['seg=0', 'seg=255', 'seg=256', 'v=1', 'v=65536', 't=1700000000000', 'off=0', 'seq=7', '32=meta', '%00', '%C3%A9',
-                 'x%2Fy', '65535=zz', 'KEY', '8=', 'a-b_c.d~e']
+                 'x%2Fy', '65535=zz', 'KEY', '8=', 'a-b_c.d~e',
+                 # typed "number" components whose value is no legal number (9 bytes; thousands of bytes), long generic ones
+                 '50=~rep:9:01', '50=~rep:1800:01', '54=~rep:2500:ff', '8=~rep:3000:41', '58=~rep:1790:7f']
 
 
 def rand_name(rng, alphabet=('a', 'b', 'c'), lo=1, hi=3):
@@ -200,6 +202,10 @@ def add_consumer_side(b, rng, fe, n_int, focus='c03', lp_prob=0.1, transparent=F
                 if fate == 'data_nomatch' and rng.random() < 0.5:
                     spec.pop('reply_to')        # the plain name without the digest component: must not match
                     spec['name'] = list(name)
+            if fate == 'data_nomatch' and not cbp and not signed and len(dname) > len(name) and dname[:len(name)] == name \
+                    and rng.random() < 0.5:
+                # the Interest carries the hash of a Data published under a LONGER name: without CanBePrefix no match
+                rec['digest_of'] = pid
             if fate == 'data' and not cbp and not signed and rng.random() < 0.2:
                 # implicit digest: matching or (other content under the same name) not matching
                 if rng.random() < 0.6:
@@ -308,6 +314,18 @@ def gen_c03(rng, seed, tier='quick'):
 # producer side
 
 
+def rand_reply_size(rng):
+    # mostly small; sometimes across the 253-byte length boundary, around 4 KiB and 8 KiB (send paths that switch on size)
+    x = rng.random()
+    if x < 0.8:
+        return rng.randint(0, 40)
+    if x < 0.87:
+        return rng.randint(200, 300)
+    if x < 0.96:
+        return rng.randint(3900, 4300)
+    return rng.randint(7900, 8800)
+
+
 def add_producer_side(b, rng, fe, focus='c04', tokens=False, lp_prob=0.1, transparent=False):
     alphabet = ('p', 'q') if rng.random() < 0.5 else ('p', 'q', 'r')
     n_pfx = rng.randint(1, 5)
@@ -340,9 +358,9 @@ def add_producer_side(b, rng, fe, focus='c04', tokens=False, lp_prob=0.1, transp
             replies = []
             if fe == 'v2':
                 for _k in range(pick_weighted(rng, [(0, 20), (1, 60), (2, 20)])):
-                    replies.append({'delay_us': None, 'content': rng.randint(0, 40)})
+                    replies.append({'delay_us': None, 'content': rand_reply_size(rng)})
             elif rng.random() < 0.3:
-                replies.append({'delay_us': rng.choice([0, 1000]), 'content': rng.randint(0, 40)})
+                replies.append({'delay_us': rng.choice([0, 1000]), 'content': rand_reply_size(rng)})
             b.op(t, 'attach', hid=hid, prefix=pfx, repr=rng.choice(REPRS), validator=vs, replies=replies)
             attached.append(pfx)
         elif x < 0.5 and attached:
@@ -446,6 +464,12 @@ def gen_c04(rng, seed, tier='quick'):
     horizon = max([o['at'] for o in b.ops] + [2000])
     if rng.random() < 0.1:
         b.op(rng.randint(1000, horizon), 'wall_jump', delta_ms=rng.choice([-5000, -50, 50, 5000]))
+        b.faults += 1
+    if not cfg.get('nfd') and not cfg.get('dispatcher') and rng.random() < 0.12:
+        # the face goes down (application shutdown, or the peer closes) between an Interest and a reply still to come
+        rxs = [o for o in b.ops if o['op'] == 'rx']
+        t = (rng.choice(rxs)['at'] + rng.choice([0, 1, 500, 1500, 6000])) if rxs and rng.random() < 0.8 else rng.randint(1000, horizon)
+        b.op(t, rng.choice(['shutdown', 'eof', 'reset']) if cfg['face'] in ('tcp', 'unix') else 'shutdown')
         b.faults += 1
     extra = {}
     if appv is not None:
@@ -587,7 +611,9 @@ def gen_c06(rng, seed, tier='quick'):
             bpid = base['pid'] if isinstance(base, dict) else base
             lp = rng.choice([{'frag': [0, 2]}, {'frag': [1, 3]}, {'frag': [None, 2]}, {'nofrag': True},
                              {'nofrag': True, 'token': 'aa'}, {'hdr': [[0x0355, '00']]}, {'hdr': [[0x63, '']]},
-                             {'frag': [0, 1]}])
+                             {'frag': [0, 1]}, {'frag': [1, 1]}, {'frag': [1, None]}, {'frag': [0, None]}, {'frag': [2, 0]},
+                             {'frag': [None, 1]}, {'frag': [0, 2], 'hdr': [[0x51, '0000000000000001']]},
+                             {'frag': [0, 1], 'hdr': [[0x51, '0000000000000002']]}])
             b.rx(t, bpid, lp=lp)
         b.faults += 1
     # 4. the legitimate packets
@@ -633,9 +659,11 @@ def gen_c10(rng, seed, tier='quick'):
             pid = ref['pid'] if isinstance(ref, dict) else ref
             if isinstance(ref, dict) and 'nack' in ref.get('lp', {}):
                 continue
-            lp = {'frag': rng.choice([[0, 2], [1, 2], [2, 5], [None, 3], [1, None]])}
+            lp = {'frag': rng.choice([[0, 2], [1, 2], [2, 5], [None, 3], [1, None], [0, 1], [1, 1], [0, None], [None, 1], [3, 0]])}
             if rng.random() < 0.5:
                 lp['token'] = rand_token(rng)
+            if rng.random() < 0.4:
+                lp['hdr'] = [[0x51, '%016x' % rng.randint(0, 9)]]       # Sequence, as real fragments carry it
             b.op(max(0, o['at'] - rng.choice([1, 1000, 3000])), 'rx', pkt={'pid': pid, 'lp': lp})
             b.faults += 1
     del horizon
